@@ -951,7 +951,7 @@ def check_totality(pid, tier, seed, scratch, replay):
             jobs.append((kind, K, p, parts, None))
     sparts = 16
     for p in (range(sparts) if thorough else [(seed + i * 5) % sparts for i in range(3)]):
-        jobs.append(("shapes", 8, p, sparts, None))
+        jobs.append(("shapes", 11, p, sparts, None))
 
     def run_gen(job):
         kind, k, p, parts, _ = job
